@@ -31,7 +31,7 @@ TraceNext ==
        [] ev.e = "tdone" -> ThreadDone(ev) /\ OsSkip
        [] ev.e = "os" -> /\ Consume
                          /\ OsEvent(ev, live)
-                         /\ IF ev.ok THEN UNCHANGED osfail ELSE OsRefused
+                         /\ IF ~ev.ok THEN OsRefused ELSE IF ev.call = "mmap" THEN OsMapped ELSE UNCHANGED osfail
                          /\ UNCHANGED <<live, heaps, dflt, backing, flux, arenas, cfg, pcm>>
        [] ev.e = "clock" -> Consume /\ OsClock(ev) /\ ApiSame
        [] ev.e = "areas" -> Consume /\ OsAreas(ev, live) /\ ApiSame
@@ -47,7 +47,7 @@ TraceNext ==
        [] ev.e = "reset" -> /\ Consume
                             /\ live' = <<>> /\ heaps' = (1 :> [t |-> 0, backing |-> TRUE, arena |-> 0, desc |-> 0])
                             /\ dflt' = (0 :> 1) /\ backing' = (0 :> 1) /\ flux' = (0 :> NoCall) /\ arenas' = <<>>
-                            /\ osfail' = (0 :> FALSE) /\ pcm' = <<0, 0>> /\ UNCHANGED cfg
+                            /\ osfail' = (0 :> <<FALSE, FALSE>>) /\ pcm' = <<0, 0>> /\ UNCHANGED cfg
                             /\ OsReset
        [] ev.e = "round" -> Round(ev) /\ OsSkip
        [] ev.e = "end" -> Consume /\ ApiSame /\ OsSkip
